@@ -90,7 +90,7 @@ fn submit<'a>(s: &'a Server, a: &Act) -> ActFuture<'a> {
 async fn observe(s: &Server, token: &str) -> Value {
     let mut out = serde_json::Map::new();
     let dbs = s.call("GET", "/admin/db/list", Some(token), None).await;
-    let mut names: Vec<String> = dbs.body.as_array().map(|a| a.iter().filter_map(|d| d["db"].as_str().map(|x| x.to_string())).collect()).unwrap_or_default();
+    let mut names: Vec<String> = dbs.body.as_array().map(|a| a.iter().filter_map(|d| Some(format!("{}/{}", d["owner"].as_str()?, d["db"].as_str()?))).collect()).unwrap_or_default();
     names.sort();
     out.insert("dbs".into(), json!(names));
     for full in &names {
